@@ -87,10 +87,80 @@ fn adv_point(p: &Point, code: u16, seed: u64) -> Point {
     }
 }
 
+/// Q_X = [H1(ID_X || 02)]P1 + Ppub-e for both parties and B's private key, by the reference, cached per (ke, IDs)
+fn sweep_fix(cfg: &Config, seed: u64) -> Option<Arc<(G1, G1, G1, G2)>> {
+    static M: Mutex<Option<HashMap<String, Option<Arc<(G1, G1, G1, G2)>>>>> = Mutex::new(None);
+    let key = format!("{}/{}/{}/{}", cfg.ke, cfg.ida, cfg.idb, seed);
+    if let Some(v) = M.lock().unwrap().get_or_insert_with(HashMap::new).get(&key) {
+        return v.clone();
+    }
+    let pr = sm9::params();
+    let ke = hb(&cfg.ke);
+    let (ida, idb) = (ident(&cfg.ida, seed), ident(&cfg.idb, seed));
+    let ppube = sm9::g1_mul(&ke, &pr.p1);
+    let q = |id: &[u8]| sm9::g1_add(&sm9::g1_mul(&sm9::h1(id, sm9::HID_EXCH), &pr.p1), &ppube);
+    let v = sm9::extract_enc_key(&ke, &idb, sm9::HID_EXCH).map(|de_b| Arc::new((ppube.clone(), q(&ida), q(&idb), de_b)));
+    M.lock().unwrap().as_mut().unwrap().insert(key, v.clone());
+    v
+}
+
+/// the ephemeral points alone: R_A = [r_A]Q_B out of exch_step_1a and R_B = [r_B]Q_A out of exch_step_1b, for scripted r_A, r_B
+fn eval_points_only(ctx: &Ctx, case: &Case) {
+    let cj = || serde_json::to_value(case).unwrap();
+    let cfg = &case.cfg;
+    let Some(fx) = sweep_fix(cfg, ctx.seed) else { return };
+    let (ppube, qa, qb, de_b) = (&fx.0, &fx.1, &fx.2, &fx.3);
+    ctx.trace();
+    let (ke, ra, rb) = (hb(&cfg.ke), hb(&cfg.ra), hb(&cfg.rb));
+    let (ida, idb) = (ident(&cfg.ida, ctx.seed), ident(&cfg.idb, ctx.seed));
+    let msk = Sm9EncMasterKey { ke: to_limbs(&ke), ppube: lib_g1_affine(ppube) };
+    let key_b = Sm9EncKey { ppube: msk.ppube, de: lib_g2_affine(de_b) };
+    let q = |first: &BigUint| vec![cand(first), cand(&BigUint::from(0x1234567u32)), cand(&BigUint::from(0x7654321u32))];
+    let (r1, log1) = with_rng(q(&ra), || exch_step_1a(&msk, &idb));
+    ctx.call();
+    let (ra_pt, ra_scalar) = match r1 {
+        Guard::Done(v) => v,
+        Guard::Panic(p) => {
+            ctx.violation("exch_step_1a", &format!("panic/{}", panic_site(&p)), p, cj());
+            return;
+        }
+    };
+    if log1.accepted.last().map(from_limbs) != Some(ra.clone()) || from_limbs(&ra_scalar) != ra {
+        ctx.outcome("skipped/nonce-rejected");
+        return;
+    }
+    let want_ra = sm9::g1_mul(&ra, qb);
+    if ref_g1(&ra_pt) != want_ra {
+        ctx.violation("exch_step_1a", &format!("R_A-not-GMT0044.3/{}", case.tag), format!("r_A={} got={} want={}", cfg.ra, g1_str(&ref_g1(&ra_pt)), g1_str(&want_ra)), cj());
+        return;
+    }
+    let (r2, log2) = with_rng(q(&rb), || exch_step_1b(&msk, &ida, &idb, &key_b, &ra_pt, case.klen));
+    ctx.call();
+    match r2 {
+        Guard::Done(Ok((rb_pt, _))) => {
+            if log2.accepted.last().map(from_limbs) != Some(rb.clone()) {
+                ctx.outcome("skipped/nonce-rejected");
+                return;
+            }
+            let want_rb = sm9::g1_mul(&rb, qa);
+            if ref_g1(&rb_pt) != want_rb {
+                ctx.violation("exch_step_1b", &format!("R_B-not-GMT0044.3/{}", case.tag), format!("r_B={} got={} want={}", cfg.rb, g1_str(&ref_g1(&rb_pt)), g1_str(&want_rb)), cj());
+                return;
+            }
+            ctx.outcome("ok/ephemeral-points");
+        }
+        other => ctx.violation("exch_step_1b", &format!("valid-R_A-refused/{}", case.tag), gdbg(&other.map(|r| r.map(|_| ()))), cj()),
+    }
+}
+
 pub fn eval(ctx: &Ctx, case: &Case) {
     ctx.state();
     let cj = || serde_json::to_value(case).unwrap();
     let cfg = &case.cfg;
+    if case.tag.starts_with("ephemeral-sweep") {
+        eval_points_only(ctx, case);
+        return;
+    }
     let Some(fx) = fix(cfg, ctx.seed) else { return };
     ctx.trace();
     let (ke, ra, rb) = (hb(&cfg.ke), hb(&cfg.ra), hb(&cfg.rb));
@@ -236,7 +306,7 @@ pub fn replay(ctx: &Arc<Ctx>, v: &Value) {
 pub fn run(ctx: &Arc<Ctx>) {
     refmodels::selftest::run(&["sm3", "sm9"]).unwrap_or_else(|e| ctx.machinery_error(format!("reference self-test failed: {}", e)));
     let n = sm9::params().n.clone();
-    ctx.set_rule("stateright BFS over the man-in-the-middle choices for the two deliveries R_A->B and R_B->A, each in {pass, re-randomised Jacobian representation, affine as decoded from the 65-byte wire form, -R, 2R, P1, off-curve, point at infinity}, on the real exch_step_1a / 1b / 2a with ephemeral scalars fixed through the RNG seam, per configuration (master {Annex ke, seeded} x identity pairs {Alice/Bob, ''/x, seeded} and, on honest runs, identities a normalising implementation would alter: trailing / leading white space, line ends, NUL, case, trailing hid byte); honest paths for every klen 1..=128 (thorough 400) and klen in {8160, 8191, 8192, 8193, 8225, 2^16+1, 2^24+1}; key objects holding Ppub-e / de in Jacobian representations with structured Z; master-key objects that hold only the public key. Invariant: honest deliveries (incl. re-randomised) give SK_A = SK_B = KDF(ID_A||ID_B||R_A||R_B||g1||g2||g3) of the reference (incl. the GM/T 0044.5 example); an off-curve R is refused by the step that receives it; any other altered R makes the two keys differ; no panic.");
+    ctx.set_rule("stateright BFS over the man-in-the-middle choices for the two deliveries R_A->B and R_B->A, each in {pass, re-randomised Jacobian representation, affine as decoded from the 65-byte wire form, -R, 2R, P1, off-curve, point at infinity}, on the real exch_step_1a / 1b / 2a with ephemeral scalars fixed through the RNG seam, per configuration (master {Annex ke, seeded} x identity pairs {Alice/Bob, ''/x, seeded} and, on honest runs, identities a normalising implementation would alter: trailing / leading white space, line ends, NUL, case, trailing hid byte); ephemeral scalars r_A, r_B at every value within 130 (thorough 600) of 0 and of N (R_A, R_B against the reference multiplication; the whole exchange for r in N-{1,2,5,10,37,74}); honest paths for every klen 1..=128 (thorough 400) and klen in {8160, 8191, 8192, 8193, 8225, 2^16+1, 2^24+1}; key objects holding Ppub-e / de in Jacobian representations with structured Z; master-key objects that hold only the public key. Invariant: honest deliveries (incl. re-randomised) give SK_A = SK_B = KDF(ID_A||ID_B||R_A||R_B||g1||g2||g3) of the reference (incl. the GM/T 0044.5 example); an off-curve R is refused by the step that receives it; any other altered R makes the two keys differ; no panic.");
     let mut g = SplitMix::new(ctx.seed, "c17");
     let annex = Config { ke: "0002E65B0762D042F51F0D23542B13ED8CFA2E9A0E7206361E013A283905E31F".into(), ida: "Alice".into(), idb: "Bob".into(), ra: "00005879DD1D51E175946F23B1B41E93BA31C584AE59A426EC1046A4D03B06C8".into(), rb: "00018B98C44BEF9F8537FB7D071B2C928B3BC65BD3D69E1EEE213564905634FE".into() };
     let seeded_ke = hexbig(&g.nonzero_below(&n));
@@ -294,6 +364,22 @@ pub fn run(ctx: &Arc<Ctx>) {
     for (ci, c) in cfgs.iter().enumerate().skip(n_adv) {
         for klen in [16usize, 48] {
             cases.push(Case { cfg: c.clone(), klen, adv: [0, 0], tag: format!("honest/cfg{}", ci) });
+        }
+    }
+    // ephemeral scalars within W of 0 and of N (one (window, digit) coincidence of a signed-digit ladder sits at a single such
+    // scalar): R_A and R_B alone against the reference multiplication, and the full exchange for a handful of them
+    {
+        let w = ctx.tier.pick(130u32, 600);
+        let base = &cfgs[0];
+        for j in 1..=w {
+            for (tn, r) in [("near-0", BigUint::from(j)), ("near-N", &n - j)] {
+                let other = hexbig(&(&n - 1u32 - &r));
+                cases.push(Case { cfg: Config { ra: hexbig(&r), rb: other.clone(), ..base.clone() }, klen: 16, adv: [0, 0], tag: format!("ephemeral-sweep/{}", tn) });
+            }
+        }
+        for j in [1u32, 2, 5, 10, 37, 74] {
+            cases.push(Case { cfg: Config { ra: hexbig(&(&n - j)), rb: hexbig(&BigUint::from(j)), ..base.clone() }, klen: 16, adv: [0, 7], tag: "honest/ephemeral-near-N".into() });
+            cases.push(Case { cfg: Config { ra: hexbig(&BigUint::from(j + 1)), rb: hexbig(&(&n - j)), ..base.clone() }, klen: 16, adv: [7, 0], tag: "honest/ephemeral-near-N".into() });
         }
     }
     for klen in 1..=ctx.tier.pick(128usize, 400) {
